@@ -114,6 +114,9 @@ func Eq(a, b string) string {
 	if a == b {
 		return "true"
 	}
+	if len(a) > 1 && len(b) > 1 && a[0] == '"' && b[0] == '"' {
+		return "false" // distinct string literals
+	}
 	return App("=", a, b)
 }
 func Ite(c, a, b string) string {
